@@ -23,7 +23,8 @@ type verifEvent struct {
 
 var (
 	verifTraceFor    func(q string) ([]verifEvent, string, bool)
-	verifDispatch    func(l *ToBoltListener, name string) bool
+	verifDispatch    func(l *ToBoltListener, name string, ctx antlr.ParserRuleContext) bool
+	verifNewCtx      func(rule string) antlr.ParserRuleContext
 	verifDatetimeFor func(text string) (sec, nsec int64, off int, utc bool, errText string, ok bool)
 )
 
@@ -91,10 +92,35 @@ func VerifValidStringBody(body string) bool {
 // lit, when non-nil, replaces the text of STRING tokens holding the placeholder.
 func verifReplay(symbolTypes SymbolTypes, events []verifEvent, lit *string) (Query, error) {
 	listener := NewListener()
+	// The rule contexts handed to the listener are rebuilt as real context
+	// objects of the generated parser's types (children: sub-contexts and
+	// terminal nodes in source order), so listener code that reads its context
+	// (GetText, token / child accessors) sees what the real walker would give it.
+	// Not rebuilt: start/stop tokens, parser reference, invoking states.
+	var stack []antlr.ParserRuleContext
 	for _, ev := range events {
 		switch ev.Kind {
-		case 0, 1:
-			if !verifDispatch(listener, ev.Name) {
+		case 0:
+			c := verifNewCtx(ev.Name[len("Enter"):])
+			if c == nil {
+				return nil, errors.Errorf("verif: no context type for %v", ev.Name)
+			}
+			if len(stack) > 0 {
+				top := stack[len(stack)-1]
+				top.AddChild(c)
+				c.SetParent(top)
+			}
+			stack = append(stack, c)
+			if !verifDispatch(listener, ev.Name, c) {
+				return nil, errors.Errorf("verif: no listener method %v", ev.Name)
+			}
+		case 1:
+			if len(stack) == 0 {
+				return nil, errors.Errorf("verif: unbalanced trace at %v", ev.Name)
+			}
+			c := stack[len(stack)-1]
+			stack = stack[:len(stack)-1]
+			if !verifDispatch(listener, ev.Name, c) {
 				return nil, errors.Errorf("verif: no listener method %v", ev.Name)
 			}
 		case 2:
@@ -102,7 +128,12 @@ func verifReplay(symbolTypes SymbolTypes, events []verifEvent, lit *string) (Que
 			if lit != nil && ev.Tok == zitiql.ZitiQlLexerSTRING && text == `"`+verifLiteralPlaceholder+`"` {
 				text = `"` + *lit + `"`
 			}
-			listener.VisitTerminal(&verifTerminal{tok: &verifToken{typ: ev.Tok, text: text}})
+			tok := &verifToken{typ: ev.Tok, text: text}
+			if len(stack) > 0 {
+				listener.VisitTerminal(stack[len(stack)-1].AddTokenNode(tok))
+			} else {
+				listener.VisitTerminal(&verifTerminal{tok: tok})
+			}
 		case 3:
 			// error nodes only occur together with reported syntax errors
 		}
